@@ -27,3 +27,11 @@ Proof. intros. rewrite firstn_length. lia. Qed.
 
 Lemma nth_error_skipn' {A} (l : list A) : forall n i, nth_error (skipn n l) i = nth_error l (n + i).
 Proof. induction l as [|x l IH]; intros [|n] i; cbn; auto. destruct i; reflexivity. Qed.
+
+Lemma NoDup_app_single {A} (l : list A) x : NoDup l -> ~ In x l -> NoDup (l ++ [x]).
+Proof.
+  induction l as [|y l IH]; intros Hn Hx; cbn [app]; [constructor; [intros []|constructor]|].
+  inversion Hn as [|? ? Hy Hn']; subst. constructor.
+  - intros Hin. apply in_app_or in Hin. destruct Hin as [Hin|[Hin|[]]]; [contradiction|]. subst. apply Hx. left; reflexivity.
+  - apply IH; [assumption|]. intros Hin. apply Hx. right; assumption.
+Qed.
